@@ -48,15 +48,15 @@ Lemma bridge_members_2d :
             List.length (dd_coords (sv_2d gen_save)) = 4.
 Proof. eexists. split; [reflexivity|]. split; [reflexivity|]. split; reflexivity. Qed.
 
-Lemma bridge_fields_3d :
-  option_map n_fp (normalize (sv_3d gen_save)) = Some (n_fp (canon_norm true)) /\
-  option_map n_conc (normalize (sv_3d gen_save)) = Some (n_conc (canon_norm true)).
-Proof. split; reflexivity. Qed.
+Lemma bridge_fields_3d : exists k1 k2 : fkey,
+  option_map n_fp (normalize (sv_3d gen_save)) = Some (n_fp (canon_norm true k1 k2)) /\
+  option_map n_conc (normalize (sv_3d gen_save)) = Some (n_conc (canon_norm true k1 k2)).
+Proof. eexists. eexists. split; cbv; reflexivity. Qed.
 
-Lemma bridge_fields_2d :
-  option_map n_fp (normalize (sv_2d gen_save)) = Some (n_fp (canon_norm false)) /\
-  option_map n_conc (normalize (sv_2d gen_save)) = Some (n_conc (canon_norm false)).
-Proof. split; reflexivity. Qed.
+Lemma bridge_fields_2d : exists k1 k2 : fkey,
+  option_map n_fp (normalize (sv_2d gen_save)) = Some (n_fp (canon_norm false k1 k2)) /\
+  option_map n_conc (normalize (sv_2d gen_save)) = Some (n_conc (canon_norm false k1 k2)).
+Proof. eexists. eexists. split; cbv; reflexivity. Qed.
 
 Lemma bridge_met : forall b : bool,
   let n := normalize (if b then sv_3d gen_save else sv_2d gen_save) in
@@ -109,7 +109,7 @@ Theorem bridge_save :
   option_map (fun d => (d, @nil (string * string))) (assemble eqbN str nanV zeroF rs tws).
 Proof.
   intros N L T V F A eqbN str nanV zeroF E Hrefl.
-  apply (run_save_canonical eqbN str nanV zeroF E Hrefl gen_save); reflexivity.
+  eapply (run_save_canonical eqbN str nanV zeroF E Hrefl gen_save); [reflexivity|reflexivity|cbv; reflexivity|cbv; reflexivity].
 Qed.
 
 Theorem bridge_save_file :
